@@ -56,11 +56,47 @@ func c03SubsetEvaluators(c *Ctx) {
 	cat := catalogPods()
 	minors := []int{0, 1, 7, 8, 18, 19, 21, 22, 24, 25, 31, 32, -1}
 	shown := 0
-	for _, s := range subsets {
-		ev, err := policy.NewEvaluator(s.checks)
+	var ops, ins []J
+	var gos [][]RevResult
+	for si, s := range subsets {
+		// the subset's checks, each revision reporting what it returned (as newRecEvaluator does for the full set)
+		var log []RevResult
+		var keep []string
+		checks := make([]policy.Check, len(s.checks))
+		for i, ch := range s.checks {
+			keep = append(keep, string(ch.ID))
+			checks[i] = ch
+			checks[i].Versions = append([]policy.VersionedCheck{}, ch.Versions...)
+			for j := range checks[i].Versions {
+				name := fmt.Sprintf("%s@%d", ch.ID, checks[i].Versions[j].MinimumVersion.Minor())
+				fn := checks[i].Versions[j].CheckPod
+				checks[i].Versions[j].CheckPod = func(m *metav1.ObjectMeta, sp *corev1.PodSpec) policy.CheckResult {
+					r := fn(m, sp)
+					log = append(log, RevResult{Rev: name, Allowed: r.Allowed, Reason: r.ForbiddenReason, Detail: r.ForbiddenDetail})
+					return r
+				}
+			}
+		}
+		ev, err := policy.NewEvaluator(checks)
 		if err != nil {
 			c.Violate(Finding{Desc: "an evaluator cannot be built from " + s.name + ": " + err.Error(), Key: "subset-evaluator-refused", Input: s.name})
 			continue
+		}
+		// correspondence: the model's evaluator for the same subset (driver op evalSubset, the function C03_order_every_subset is
+		// about) runs the same revisions in the same order with the same verdicts — on a sample of (version, pod)
+		for k, pc := range cat {
+			if (k+si)%23 != 0 || !apiValid(&pc.Pod.Spec) {
+				continue
+			}
+			m := minors[(k/23+si)%len(minors)]
+			for _, l := range []string{"baseline", "restricted"} {
+				log = log[:0]
+				ev.EvaluatePod(mkLV(l, m), &pc.Pod.ObjectMeta, &pc.Pod.Spec)
+				c.Eval(1)
+				gos = append(gos, append([]RevResult{}, log...))
+				ops = append(ops, J{"op": "evalSubset", "keep": keep, "level": l, "version": minorJSON(m), "relax": false, "pod": projectPod(&pc.Pod.ObjectMeta, &pc.Pod.Spec)})
+				ins = append(ins, J{"checks": s.name, "level": l, "minor": m, "atoms": pc.Atoms, "pod": pc.Pod})
+			}
 		}
 		for _, m := range minors {
 			for _, pc := range cat {
@@ -80,6 +116,11 @@ func c03SubsetEvaluators(c *Ctx) {
 			}
 		}
 		c.Tag("c03.subsetEvaluator")
+	}
+	for k, o := range c.Lean(ops) {
+		if lr := leanResults(o); bits(lr) != bits(gos[k]) {
+			c.Disagree(Finding{Desc: "an evaluator built from a subset of the checks runs other revisions, or gets other verdicts, than the model's evaluator for that subset", Input: ins[k], Go: bits(gos[k]), Lean: bits(lr)})
+		}
 	}
 }
 
